@@ -170,6 +170,9 @@ func (u *U) Field(x *E, name string, typ types.Type) *E {
 			}
 		}
 	}
+	if x.Op == "zero" && typ != nil {
+		return u.Zero(typ)
+	}
 	return u.mk("field", name, typ, x)
 }
 
@@ -1066,4 +1069,22 @@ func wrapInt64(v int64, bt *types.Basic) int64 {
 		return x
 	}
 	return v
+}
+
+// Zero is the zero value of type t.
+func (u *U) Zero(t types.Type) *E {
+	switch b := t.Underlying().(type) {
+	case *types.Basic:
+		switch {
+		case b.Info()&types.IsBoolean != 0:
+			return u.Bool(False)
+		case b.Info()&types.IsString != 0:
+			return u.ConstVal(constant.MakeString(""), t)
+		case b.Info()&types.IsNumeric != 0:
+			return u.ConstVal(constant.MakeInt64(0), t)
+		}
+	case *types.Struct:
+		return u.mk("zero", typeStr(t), t)
+	}
+	return u.mk("nil", "", t)
 }
